@@ -35,6 +35,10 @@ def cases(rng, tier, shard, nshards):
         # two calls of one object with different extra arguments overlap (f itself uses the object, or a second thread does)
         yield dict(kind='overlap', method=['central', 'forward', 'complex'][(j + shard) % 3], gradient=bool(j % 2), threads=bool((j // 2) % 2),
                    at=int(rng.integers(1, 4)), seed=int(rng.integers(0, 2 ** 31)), n=int(rng.integers(2, 5)))
+    for j in range(8 if tier == 'quick' else 60):
+        # Gradient / Jacobian of an affine map far from the origin with every default (the default step is relative to |x|)
+        yield dict(n=int(rng.integers(1, 7)), m=int(rng.integers(1, 4)), method=['forward', 'central'][j % 2], family='affine',
+                   seed=int(rng.integers(0, 2 ** 31)), step=None, bounds='none', gradient=bool((j // 2) % 2 == 0), xshape='vector', large_x=True)
     for i in range(BUDGET[tier] // nshards):
         n, m = int(rng.integers(1, 7)), int(rng.integers(1, 6))
         yield dict(n=n, m=m, method=['central', 'forward', 'complex'][i % 3],
@@ -147,6 +151,10 @@ def run_case(case, ctx):
         x = np.sign(x) * mag
         if n > 1 and rng.random() < 0.5:
             x[int(rng.integers(0, n))] = 0.0
+    if int_dtype is None and case['family'] == 'affine' and method != 'complex' and case['bounds'] == 'none' and case['step'] is None and (case['seed'] % 3 != 0 or case.get('large_x')):
+        # points far from the origin (1e2 .. 1e7): the default step is relative to |x|
+        x = x * 10.0 ** rng.uniform(2, 7, size=n)
+        ctx.count('large_magnitude_x_cases')
     scale_arg, shift_kw = float(rng.uniform(0.5, 2.0)), float(rng.normal())
     # how the extra arguments are given in the judged call: positional + keyword, positional only, keyword only, none (f has
     # defaults s=1, shift=0); in a third of the cases the object has served another call with other extra arguments before
@@ -268,6 +276,13 @@ def run_case(case, ctx):
     amax = float(np.max(np.abs(Jexact))) or 1.0
     if case['family'] == 'affine' and method == 'complex':
         tol = 64 * EPS * amax
+    elif case['family'] == 'affine' and case['step'] is None and case['bounds'] == 'none' and int_dtype is None:
+        # an affine map has no truncation error: what remains is the rounding of f at the displaced points over the step scipy
+        # documents as its default, eps^(1/2) (2-point) or eps^(1/3) (3-point) times max(1, |x_j|) - a *relative* step
+        h_def = (EPS ** 0.5 if method == 'forward' else EPS ** (1.0 / 3.0)) * float(np.min(np.maximum(1.0, np.abs(x))))
+        fmag_ = float(np.max(np.abs(scale_arg * A) @ np.abs(x))) + float(np.max(np.abs(b))) + abs(shift_kw) + amax
+        tol = 256 * EPS * fmag_ / h_def
+        ctx.count('affine_default_step_asserted_at_rounding_level')
     elif case['family'] == 'affine':
         tol = 1e-6 * amax * (1 + float(np.max(np.abs(x))) + float(np.max(np.abs(b))) / amax)
     else:
